@@ -51,6 +51,9 @@ pub struct Elem {
     /// 2 = after the opening tag on its line, 3 = before the closing tag on its line
     #[serde(default)]
     pub wrapper_inline: Option<(u8, Box<Elem>)>,
+    /// a second one, at another of the four positions
+    #[serde(default)]
+    pub wrapper_inline2: Option<(u8, Box<Elem>)>,
     /// carries the unwrap-block attribute but has no wrapper lines and at most one
     /// line between its tags: can never be unwrapped (its children are still cleaned)
     #[serde(default)]
@@ -126,6 +129,18 @@ const WRAPPERS: &[(&str, &str)] = &[
 const INDENTS: &[&str] = &["", "", "  ", "    ", "\t", "\t\t", "      "];
 
 impl Elem {
+    /// the inline element sharing this unwrap-block's line at position `pos` (0..=3), if any
+    fn wi(&self, pos: u8) -> Option<&Elem> {
+        for w in [&self.wrapper_inline, &self.wrapper_inline2] {
+            if let Some((p, x)) = w {
+                if *p == pos {
+                    return Some(x);
+                }
+            }
+        }
+        None
+    }
+
     fn tag_name<'a>(&'a self, doc: &'a Doc) -> &'a str {
         match &self.kind {
             Kind::Tl => &doc.tl_tag,
@@ -217,8 +232,8 @@ fn render_nodes(doc: &Doc, nodes: &[Node], out: &mut Vec<String>) {
                     // a multi-line open tag contributes several lines
                     let n_open = e.open_tag(doc).split('\n').count();
                     for (i, l) in e.open_tag(doc).split('\n').enumerate() {
-                        let tail = match &e.wrapper_inline {
-                            Some((2, x)) if i + 1 == n_open => format!(" {}", x.inline_core(doc)),
+                        let tail = match e.wi(2) {
+                            Some(x) if i + 1 == n_open => format!(" {}", x.inline_core(doc)),
                             _ => String::new(),
                         };
                         if i == 0 {
@@ -228,15 +243,15 @@ fn render_nodes(doc: &Doc, nodes: &[Node], out: &mut Vec<String>) {
                         }
                     }
                     if let Some((w, _)) = &e.unwrap {
-                        match &e.wrapper_inline {
-                            Some((0, x)) => out.push(format!("{} {}", w, x.inline_core(doc))),
+                        match e.wi(0) {
+                            Some(x) => out.push(format!("{} {}", w, x.inline_core(doc))),
                             _ => out.push(w.clone()),
                         }
                     }
                     render_nodes(doc, &e.children, out);
                     if let Some((_, w)) = &e.unwrap {
-                        match &e.wrapper_inline {
-                            Some((1, x)) => {
+                        match e.wi(1) {
+                            Some(x) => {
                                 let t = w.trim_start();
                                 let lead = &w[..w.len() - t.len()];
                                 out.push(format!("{}{} {}", lead, x.inline_core(doc), t));
@@ -244,7 +259,7 @@ fn render_nodes(doc: &Doc, nodes: &[Node], out: &mut Vec<String>) {
                             _ => out.push(w.clone()),
                         }
                     }
-                    if let Some((3, x)) = &e.wrapper_inline {
+                    if let Some(x) = e.wi(3) {
                         out.push(format!("{}{} {}", e.indent, x.inline_core(doc), e.close_tag(doc)));
                         continue;
                     }
@@ -287,6 +302,9 @@ impl Doc {
                     if let Some((_, x)) = &e.wrapper_inline {
                         out.push(x);
                     }
+                    if let Some((_, x)) = &e.wrapper_inline2 {
+                        out.push(x);
+                    }
                     walk(&e.children, out);
                 }
             }
@@ -302,6 +320,9 @@ impl Doc {
                 if let Node::Elem(e) = n {
                     out.push(e as *mut Elem);
                     if let Some((_, x)) = &mut e.wrapper_inline {
+                        out.push(&mut **x as *mut Elem);
+                    }
+                    if let Some((_, x)) = &mut e.wrapper_inline2 {
                         out.push(&mut **x as *mut Elem);
                     }
                     walk(&mut e.children, out);
@@ -396,12 +417,20 @@ impl Doc {
                 e.indent.clear();
                 c
             }));
-            variants.push(Box::new(|e| e.wrapper_inline.take().is_some()));
+            variants.push(Box::new(|e| e.wrapper_inline2.take().is_some()));
+            variants.push(Box::new(|e| {
+                let had = e.wrapper_inline.take().is_some();
+                if had {
+                    e.wrapper_inline = e.wrapper_inline2.take();
+                }
+                had
+            }));
             variants.push(Box::new(|e| std::mem::take(&mut e.unwrap_degenerate)));
             variants.push(Box::new(|e| {
                 let had = e.unwrap.take().is_some();
                 if had {
                     e.wrapper_inline = None;
+                    e.wrapper_inline2 = None;
                 }
                 had
             }));
@@ -508,6 +537,7 @@ impl Doc {
                 Node::Elem(e) => {
                     e.unwrap.as_ref().map_or(true, |(a, b)| ok(a) && ok(b))
                         && e.wrapper_inline.as_ref().map_or(true, |(_, x)| x.inline.as_ref().map_or(true, |(a, b, c)| ok(a) && ok(b) && ok(c)))
+                        && e.wrapper_inline2.as_ref().map_or(true, |(_, x)| x.inline.as_ref().map_or(true, |(a, b, c)| ok(a) && ok(b) && ok(c)))
                         && e.inline.as_ref().map_or(true, |(a, b, c)| ok(a) && ok(b) && ok(c))
                         && walk(doc, &e.children)
                 }
@@ -616,6 +646,7 @@ impl<'a, 'b> DocGen<'a, 'b> {
             inline: Some((pre, body, suf)),
             children: vec![],
             wrapper_inline: None,
+            wrapper_inline2: None,
             unwrap_degenerate: false,
         })
     }
@@ -669,6 +700,7 @@ impl<'a, 'b> DocGen<'a, 'b> {
             inline: None,
             children: vec![],
             wrapper_inline: None,
+            wrapper_inline2: None,
             unwrap_degenerate: false,
         };
         if inline {
@@ -712,7 +744,15 @@ impl<'a, 'b> DocGen<'a, 'b> {
             if self.p.allow_wrapper_layouts && self.budget > 0 && self.rng.chance(1, 5) {
                 self.budget -= 1;
                 if let Some(x) = self.inline_elem("", ds, de, false) {
-                    e.wrapper_inline = Some((self.rng.below(4) as u8, Box::new(x)));
+                    let pos = self.rng.below(4) as u8;
+                    e.wrapper_inline = Some((pos, Box::new(x)));
+                    if self.budget > 0 && self.rng.chance(1, 2) {
+                        self.budget -= 1;
+                        if let Some(y) = self.inline_elem("", ds, de, false) {
+                            let pos2 = (pos + 1 + self.rng.below(3) as u8) % 4;
+                            e.wrapper_inline2 = Some((pos2, Box::new(y)));
+                        }
+                    }
                 }
             }
         } else {
